@@ -5,6 +5,7 @@
 # in seeded/*/meta.json and harness/mkdesign.py regenerates the table of DESIGN.md Appendix E.
 cd "$(dirname "$0")"
 jobs=${1:-3}
+mkdir -p /tmp/seedres
 : > /tmp/seedres/final.txt
 ls -d seeded/C*_* | sed 's/seeded\///' | sort | while read s; do echo "${s%_*} ${s#*_}"; done > /tmp/seedres/todo.txt
 run_one() {
